@@ -1,12 +1,304 @@
 /-
-  CmdGraph.lean — driver commands (stub; owned by the group that builds the corresponding model).
+  CmdGraph.lean — driver commands for the graph / LC-equivalence model (C09, C16).
+
+  graphs:  n=<n> a=<row-major 0/1 string>          vertex lists: `2,0,2`   lists of lists: `0.1.2;2.1.0`
 -/
+import GraphiqModel.Model.GraphOps
+import GraphiqModel.Model.LC
 import Driver.Proto
 namespace Graphiq.CmdGraph
-open Graphiq Graphiq.Proto
+open Graphiq Graphiq.Proto Graphiq.LC
+
+def graphOf (a : Args) (key : String := "a") : BMat :=
+  let n := getNat a "n"
+  BMat.ofRows n n (rowsOf n (get a key))
+
+/-- `0.1.2;2.1.0` → [[0,1,2],[2,1,0]]  ("-" = no list, "e" = an empty inner list) -/
+def listsOf (s : String) : List (List Nat) :=
+  if s = "" ∨ s = "-" then [] else (splitChar ';' s).map fun t => if t = "e" then [] else natsOf '.' t
+
+def showLists (l : List (List Nat)) : String :=
+  if l.isEmpty then "-" else String.intercalate ";" (l.map fun p => if p.isEmpty then "e" else showNats "." p)
+
+def showGraphs (l : List BMat) : String :=
+  if l.isEmpty then "-" else String.intercalate ";" (l.map BMat.bits)
+
+def boolsOf (s : String) : List Bool := s.toList.map fun c => decide (c = '1')
+def showBools (l : List Bool) : String := String.ofList (l.map fun b => if b then '1' else '0')
+
+def errStr (e : Err) : String := s!"err {e}"
+
+/-! ### local complementation -/
+
+def cmdLc (a : Args) : String :=
+  let g := graphOf a
+  let v := getNat a "v"
+  match get a "impl" with
+  | "matrix" => match localCompGraph? g v with | .ok h => s!"ok a={h.bits}" | .error e => errStr e
+  | "pairs" => match localCompPairs? g v with | .ok h => s!"ok a={h.bits}" | .error e => errStr e
+  | _ => s!"ok a={(BMat.ofAdj g.r (localComp g.f v)).norm.bits}"
+
+def cmdSeq (a : Args) : String :=
+  let g := graphOf a
+  let vs := natsOf ',' (get a "seq")
+  if vs.any (fun v => decide (g.r ≤ v)) then "err index" else s!"ok a={(applySeqM g vs).bits}"
+
+/-- edge-mask numbering of the graphs on `n` vertices: bit `k` ↔ the `k`-th pair `(i, j)`, `i < j`, in lexicographic order -/
+def pairIndex (n i j : Nat) : Nat :=
+  -- pairs before row i: sum_{t<i} (n-1-t); then j-i-1
+  (List.range i).foldl (fun acc t => acc + (n - 1 - t)) 0 + (j - i - 1)
+
+def maskOf (g : BMat) : Nat :=
+  (List.range g.r).foldl (fun acc i => (List.range g.r).foldl (fun acc2 j =>
+    if i < j ∧ g.f i j then acc2 + 2 ^ pairIndex g.r i j else acc2) acc) 0
+
+def graphOfMask (n mask : Nat) : BMat :=
+  (BMat.ofAdj n fun i j =>
+    if i = j then false else
+      let lo := min i j
+      let hi := max i j
+      (mask >>> pairIndex n lo hi) % 2 = 1).norm
+
+/-- all masks reachable from `mask` by local complementations (BFS over the verified `localComp`) -/
+partial def orbitOf (n : Nat) (mask : Nat) : List Nat :=
+  let rec go (frontier : List Nat) (seen : List Nat) : List Nat :=
+    match frontier with
+    | [] => seen
+    | _ =>
+      let (nxt, seen') := frontier.foldl (fun (st : List Nat × List Nat) m =>
+        let g := graphOfMask n m
+        (List.range n).foldl (fun (st2 : List Nat × List Nat) v =>
+          let h := maskOf (BMat.ofAdj n (localComp g.f v)).norm
+          if st2.2.contains h then st2 else (h :: st2.1, h :: st2.2)) st) ([], seen)
+      go nxt seen'
+  go [mask] [mask]
+
+def cmdOrbit (a : Args) : String :=
+  let g := graphOf a
+  let orb := orbitOf g.r (maskOf g)
+  s!"ok size={orb.length} masks={showNats "," orb}"
+
+/-- orbit representative (smallest mask) of every graph on `n` vertices, indexed by mask -/
+partial def cmdOrbits (a : Args) : String :=
+  let n := getNat a "n"
+  let total := 2 ^ (n * (n - 1) / 2)
+  let rec go (m : Nat) (rep : Array Nat) : Array Nat :=
+    if m ≥ total then rep
+    else if rep.getD m total ≠ total then go (m + 1) rep
+    else
+      let orb := orbitOf n m
+      let r := orb.foldl min m
+      go (m + 1) (orb.foldl (fun acc x => acc.setIfInBounds x r) rep)
+  let rep := go 0 (Array.replicate total total)
+  s!"ok n={n} reps={showNats "," rep.toList}"
+
+/-! ### relabelling -/
+
+def cmdRelabel (a : Args) : String :=
+  let g := graphOf a
+  match relabel? g (natsOf ',' (get a "p")) with
+  | .ok m => s!"ok m={showInts "," m}"
+  | .error e => errStr e
+
+def cmdIso (a : Args) : String :=
+  let g := graphOf a
+  let h := graphOf a "b"
+  match bruteIso g.r g.f h.f with
+  | some m => s!"ok iso=1 map={showNats "," m}"
+  | none => "ok iso=0"
+
+def cmdIsoMap (a : Args) : String :=
+  let g := graphOf a
+  let h := graphOf a "b"
+  s!"ok valid={b01 (isIsoMap g.r g.f h.f (natsOf ',' (get a "map")))}"
+
+def cmdAutomorph (a : Args) : String :=
+  let g := graphOf a
+  match automorphCheck g (listsOf (get a "labels")) with
+  | .ok l => s!"ok count={l.length} adjs={String.intercalate ";" (l.map fun m => showBools (m.map fun v => decide (v ≠ 0)))}"
+  | .error e => errStr e
+
+def floatOfRatio (s : String) : Float :=
+  match splitChar '/' s with
+  | [p, q] => (p.toNat?.getD 0).toFloat / (q.toNat?.getD 1).toFloat
+  | _ => 0.0
+
+def cmdIsoFinder (a : Args) : String :=
+  let g := graphOf a
+  let cfg : IsoCfg :=
+    { nIso := getNat a "niso", relIncThresh := floatOfRatio (get a "rit"), allowExhaustive := get a "exh" = "1",
+      sortEmit := get a "sort" = "1", labelMap := get a "map" = "1",
+      thresh := if has a "thresh" ∧ get a "thresh" ≠ "-" then some (getNat a "thresh") else none }
+  let draws : List (List (List Nat)) :=
+    if get a "draws" = "" ∨ get a "draws" = "-" then [] else (splitChar '|' (get a "draws")).map listsOf
+  match isoFinder cfg g draws with
+  | .error e => errStr e
+  | .ok r =>
+    s!"ok nout={r.nOut} path={r.path} sorted={b01 r.sorted} withmap={b01 r.withMap} rounds={r.rounds} consumed={showNats "," r.consumed} full={String.intercalate ";" (r.full.map fun m => showBools (m.map fun v => decide (v ≠ 0)))}"
+
+/-! ### orbit explorers -/
+
+def isoOracle (g h : BMat) : Bool := (bruteIso g.r g.f h.f).isSome
+
+def optNat (a : Args) (k : String) : Option Nat := if has a k ∧ get a k ≠ "-" ∧ get a k ≠ "" then some (getNat a k) else none
+
+def cmdOrbLc (a : Args) : String :=
+  let g := graphOf a
+  let cfg : OrbCfg :=
+    { compDepth := optNat a "depth", sizeThresh := optNat a "thresh", withIso := get a "iso" = "1",
+      rand := get a "rand" = "1", repAllowed := get a "rep" = "1" }
+  match lcOrbitFinder cfg isoOracle (getNat a "fuel") g (natsOf ',' (get a "draws")) (listsOf (get a "shuffles")) with
+  | .ok l => s!"ok count={l.length} graphs={showGraphs l}"
+  | .error e => errStr e
+
+def cmdOrbRgs (a : Args) : String :=
+  match rgsOrbitFinder (graphOf a) with
+  | .ok l => s!"ok count={l.length} graphs={showGraphs l}"
+  | .error e => errStr e
+
+def cmdOrbLinear (a : Args) : String :=
+  match linearPartialOrbit (graphOf a) with
+  | .ok l => s!"ok count={l.length} graphs={showGraphs l}"
+  | .error e => errStr e
+
+def cmdPartialSeq (a : Args) : String :=
+  s!"ok seq={showNats "," (partialOrbitSeq (getNat a "n"))}"
+
+def cmdOrbDfs (a : Args) : String :=
+  match depthFirstOrbit isoOracle (getNat a "fuel") (graphOf a) with
+  | .ok (ps, l) => s!"ok count={l.length} paths={showLists ps} graphs={showGraphs l}"
+  | .error e => errStr e
+
+def metricOf (name : String) (g : BMat) : Float :=
+  match name with
+  | "edges" => (edgeCount g.r g.f).toFloat
+  | "neg-edges" => 0.0 - (edgeCount g.r g.f).toFloat
+  | _ => (maxDegree g.r g.f).toFloat
+
+def cmdWalk (a : Args) : String :=
+  let g := graphOf a
+  let score := if get a "kind" = "nbedge" then neighborEdgeScore else degreeScore
+  match lcWalk score (metricOf (get a "metric")) g (getNat a "limit") (getNat a "trials") with
+  | .ok l => s!"ok count={l.length} graphs={showGraphs (l.map fun c => c.2)}"
+  | .error e => errStr e
+
+/-! ### LC equivalence -/
+
+def modeOf (s : String) : Mode := if s = "det" then .det else if s = "rand" then .rand else .other
+
+def drawsOf (s : String) : List Bool := if s = "" ∨ s = "-" then [] else boolsOf s
+
+def cmdEquiv (a : Args) : String :=
+  let g := graphOf a
+  let h := graphOf a "b"
+  match isLcEquivalent g h (modeOf (get a "mode")) (drawsOf (get a "draws")) with
+  | .error e => errStr e
+  | .ok o =>
+    match o.sol with
+    | some s => s!"ok yes q={showBools s} rank={o.rank} dim={o.dim} path={o.path} trials={o.trials}"
+    | none => s!"ok no rank={o.rank} dim={o.dim} path={o.path} trials={o.trials}"
+
+/-- intermediate quantities of `is_lc_equivalent` for the function-by-function correspondence -/
+def cmdSystem (a : Args) : String :=
+  let g := graphOf a
+  let h := graphOf a "b"
+  let n := g.r
+  let coeff := (coeffMaker n g.f h.f).norm
+  let (red, _, last) := rowReduction coeff { coeff with f := fun _ _ => false }
+  let keep := nonzeroRows red
+  let m := (selectRows red keep).norm
+  let cols := colFinder m
+  let basis := match solutionBasisFinder m cols with
+    | .ok b => String.intercalate ";" (b.map showBools)
+    | .error e => s!"err:{e}"
+  s!"ok coeff={coeff.bits} red={red.bits} last={last} cols={showNats "," cols} basis={if basis = "" then "-" else basis}"
+
+def cmdOps (a : Args) : String :=
+  let v := boolsOf (get a "q")
+  let names := localCliffordOps (v.length / 4) v
+  s!"ok ops={if names.isEmpty then "-" else String.intercalate "," (names.map fun l => String.intercalate "." l)}"
+
+def cmdValid (a : Args) : String :=
+  let v := boolsOf (get a "q")
+  s!"ok valid={b01 (isValidClifford (v.length / 4) v)}"
+
+def cmdSolves (a : Args) : String :=
+  let g := graphOf a
+  let h := graphOf a "b"
+  let v := boolsOf (get a "q")
+  s!"ok solves={b01 (solves (coeffMaker g.r g.f h.f).norm v)} valid={b01 (isValidClifford g.r v)}"
+
+def cmdLcSeq (a : Args) : String :=
+  let g := graphOf a
+  match lcGraphOperations (getNat a "fuel") g.r g.f (boolsOf (get a "q")) with
+  | .ok l => s!"ok seq={showNats "," l}"
+  | .error e => errStr e
+
+def cmdFind (a : Args) : String :=
+  let g := graphOf a
+  let h := graphOf a "b"
+  match findLcOperations (getNat a "fuel") g h (modeOf (get a "mode")) (drawsOf (get a "draws")) (get a "legacy" = "1") with
+  | .ok l => s!"ok seq={showNats "," l}"
+  | .error e => errStr e
+
+def gatesOf (s : String) : List (String × Nat) :=
+  (listOf s).map fun t =>
+    match splitChar ':' t with
+    | [nm, q] => (nm, q.toNat?.getD 0)
+    | _ => (t, 0)
+
+def showGates (l : List (String × Nat)) : String :=
+  if l.isEmpty then "-" else String.intercalate "," (l.map fun g => s!"{g.1}:{g.2}")
+
+def cmdCheck (a : Args) : String :=
+  let g := graphOf a
+  let h := graphOf a "b"
+  match lcCheck g h (get a "validate" ≠ "0") with
+  | .ok (yes, gates) => s!"ok yes={b01 yes} gates={showGates gates}"
+  | .error e => errStr e
+
+def cmdConverter (a : Args) : String :=
+  let g := graphOf a
+  let h := graphOf a "b"
+  match converterGateList g h with
+  | .ok (gates, ok) => s!"ok gates={showGates gates} phaseok={b01 ok}"
+  | .error e => errStr e
+
+/-- apply a gate list to the graph state of `a` with the verified tableau semantics and compare with the graph state of `b` -/
+def cmdApply (a : Args) : String :=
+  let g := graphOf a
+  let h := graphOf a "b"
+  match runGates (graphTab g.r g.f) (gatesOf (get a "gates")) with
+  | .ok t => s!"ok same={b01 (isGraphState t h.f)} valid={b01 t.isSymplectic}"
+  | .error e => errStr e
 
 def dispatch (cmd : String) (a : Args) : Option String :=
   match cmd with
+  | "graph.lc" => some (cmdLc a)
+  | "graph.seq" => some (cmdSeq a)
+  | "graph.orbit" => some (cmdOrbit a)
+  | "graph.orbits" => some (cmdOrbits a)
+  | "graph.relabel" => some (cmdRelabel a)
+  | "graph.iso" => some (cmdIso a)
+  | "graph.isomap" => some (cmdIsoMap a)
+  | "graph.automorph" => some (cmdAutomorph a)
+  | "graph.isofinder" => some (cmdIsoFinder a)
+  | "orb.lc" => some (cmdOrbLc a)
+  | "orb.rgs" => some (cmdOrbRgs a)
+  | "orb.linear" => some (cmdOrbLinear a)
+  | "orb.partialseq" => some (cmdPartialSeq a)
+  | "orb.dfs" => some (cmdOrbDfs a)
+  | "orb.walk" => some (cmdWalk a)
+  | "lc.equiv" => some (cmdEquiv a)
+  | "lc.system" => some (cmdSystem a)
+  | "lc.ops" => some (cmdOps a)
+  | "lc.valid" => some (cmdValid a)
+  | "lc.solves" => some (cmdSolves a)
+  | "lc.seq" => some (cmdLcSeq a)
+  | "lc.find" => some (cmdFind a)
+  | "lc.check" => some (cmdCheck a)
+  | "lc.converter" => some (cmdConverter a)
+  | "lc.apply" => some (cmdApply a)
   | _ => none
 
 end Graphiq.CmdGraph
